@@ -24,11 +24,16 @@ pub fn gc_k_large_blobs_request_decode() {
     assert!(r.get == Some(g as u32), "GC/C01: key 1 is `get`");
     assert!(r.offset == o as u32, "GC/C01: key 3 is `offset`");
     assert!(r.length == Some(l as u32), "GC/C01: key 4 is `length`");
-    assert!(r.set.is_none() && r.pin_uv_auth_param.is_none() && r.pin_uv_auth_protocol.is_none(), "GC/C01: absent => None");
+    assert!(
+        r.set.is_none() && r.pin_uv_auth_param.is_none() && r.pin_uv_auth_protocol.is_none(),
+        "GC/C01: absent => None"
+    );
     // through the command switch: 0x0C || payload
     let full = [0x0C, 0xA3, 0x01, g, 0x03, o, 0x04, l];
     match Request::deserialize(&full) {
-        Ok(Request::LargeBlobs(q)) => assert!(q.get == Some(g as u32) && q.offset == o as u32 && q.length == Some(l as u32)),
+        Ok(Request::LargeBlobs(q)) => {
+            assert!(q.get == Some(g as u32) && q.offset == o as u32 && q.length == Some(l as u32))
+        }
         _ => panic!("GC/C01: LargeBlobs request not decoded through Request::deserialize"),
     };
 }
@@ -44,15 +49,42 @@ pub fn gc_k_large_blobs_request_faults() {
             Err(e) => e as u8,
         }
     };
-    assert!(status(&[0x0C, 0xA1, 0x01, v]) == 0x14, "GC/C05: missing required `offset` => MissingParameter");
-    assert!(status(&[0x0C, 0xA2, 0x03, v, 0x03, v]) == 0x12, "GC/C05: duplicate key => InvalidCbor");
-    assert!(status(&[0x0C, 0xA2, 0x03, v, 0x07, v]) == 0x12, "GC/C05: unknown index => InvalidCbor");
-    assert!(status(&[0x0C, 0xA1, 0x03, 0x40 | (v & 1)]) == 0x12 || v & 1 == 1, "GC/C05: wrong type (bytes for uint) => InvalidCbor");
-    assert!(status(&[0x0C, 0xA1, 0x03, 0x18, v]) == 0x12, "GC/C05: non-minimal integer => InvalidCbor");
-    assert!(status(&[0x0C, 0xBF, 0x03, v, 0xFF]) == 0x12, "GC/C05: indefinite-length map => InvalidCbor");
-    assert!(status(&[0x0C, 0xA1, 0x03]) == 0x12, "GC/C05: truncated => InvalidCbor");
-    assert!(status(&[0x0C]) == 0x12 || status(&[0x0C]) == 0x14, "GC/C05: no payload");
-    assert!(status(&[0x0C, 0xA1, 0x03, 0x1B, 0, 0, 0, 1, 0, 0, 0, 0]) == 0x12, "GC/C05: 2^32 for a uint32 => InvalidCbor");
+    assert!(
+        status(&[0x0C, 0xA1, 0x01, v]) == 0x14,
+        "GC/C05: missing required `offset` => MissingParameter"
+    );
+    assert!(
+        status(&[0x0C, 0xA2, 0x03, v, 0x03, v]) == 0x12,
+        "GC/C05: duplicate key => InvalidCbor"
+    );
+    assert!(
+        status(&[0x0C, 0xA2, 0x03, v, 0x07, v]) == 0x12,
+        "GC/C05: unknown index => InvalidCbor"
+    );
+    assert!(
+        status(&[0x0C, 0xA1, 0x03, 0x40 | (v & 1)]) == 0x12 || v & 1 == 1,
+        "GC/C05: wrong type (bytes for uint) => InvalidCbor"
+    );
+    assert!(
+        status(&[0x0C, 0xA1, 0x03, 0x18, v]) == 0x12,
+        "GC/C05: non-minimal integer => InvalidCbor"
+    );
+    assert!(
+        status(&[0x0C, 0xBF, 0x03, v, 0xFF]) == 0x12,
+        "GC/C05: indefinite-length map => InvalidCbor"
+    );
+    assert!(
+        status(&[0x0C, 0xA1, 0x03]) == 0x12,
+        "GC/C05: truncated => InvalidCbor"
+    );
+    assert!(
+        status(&[0x0C]) == 0x12 || status(&[0x0C]) == 0x14,
+        "GC/C05: no payload"
+    );
+    assert!(
+        status(&[0x0C, 0xA1, 0x03, 0x1B, 0, 0, 0, 1, 0, 0, 0, 0]) == 0x12,
+        "GC/C05: 2^32 for a uint32 => InvalidCbor"
+    );
 }
 
 /// A2: text-keyed options: keys by name, all optional, unknown members skipped (C06 / A9).
@@ -63,15 +95,30 @@ pub fn gc_k_options_decode_and_unknown() {
     let t = if b { 0xF5 } else { 0xF4 };
     let base = [0xA2, 0x62, b'r', b'k', t, 0x62, b'u', b'v', 0xF4];
     let o: AuthenticatorOptions = cbor_deserialize(&base).unwrap();
-    assert!(o.rk == Some(b) && o.uv == Some(false) && o.up.is_none(), "GC/C01: options by name");
+    assert!(
+        o.rk == Some(b) && o.uv == Some(false) && o.up.is_none(),
+        "GC/C01: options by name"
+    );
     let x = small();
     // unknown member "zz" first / middle / last, holding: uint, text, array [x, [x]], map {x: x}, tag 1(x), float16, null
-    let m1 = [0xA3, 0x62, b'z', b'z', x, 0x62, b'r', b'k', t, 0x62, b'u', b'v', 0xF4];
-    let m2 = [0xA3, 0x62, b'r', b'k', t, 0x62, b'z', b'z', 0x61, b'a', 0x62, b'u', b'v', 0xF4];
-    let m3 = [0xA3, 0x62, b'r', b'k', t, 0x62, b'u', b'v', 0xF4, 0x62, b'z', b'z', 0x82, x, 0x81, x];
-    let m4 = [0xA3, 0x62, b'r', b'k', t, 0x62, b'z', b'z', 0xA1, x, x, 0x62, b'u', b'v', 0xF4];
-    let m5 = [0xA3, 0x62, b'r', b'k', t, 0x62, b'z', b'z', 0xF9, 0x3C, 0x00, 0x62, b'u', b'v', 0xF4];
-    let m6 = [0xA3, 0x62, b'r', b'k', t, 0x62, b'z', b'z', 0xF6, 0x62, b'u', b'v', 0xF4];
+    let m1 = [
+        0xA3, 0x62, b'z', b'z', x, 0x62, b'r', b'k', t, 0x62, b'u', b'v', 0xF4,
+    ];
+    let m2 = [
+        0xA3, 0x62, b'r', b'k', t, 0x62, b'z', b'z', 0x61, b'a', 0x62, b'u', b'v', 0xF4,
+    ];
+    let m3 = [
+        0xA3, 0x62, b'r', b'k', t, 0x62, b'u', b'v', 0xF4, 0x62, b'z', b'z', 0x82, x, 0x81, x,
+    ];
+    let m4 = [
+        0xA3, 0x62, b'r', b'k', t, 0x62, b'z', b'z', 0xA1, x, x, 0x62, b'u', b'v', 0xF4,
+    ];
+    let m5 = [
+        0xA3, 0x62, b'r', b'k', t, 0x62, b'z', b'z', 0xF9, 0x3C, 0x00, 0x62, b'u', b'v', 0xF4,
+    ];
+    let m6 = [
+        0xA3, 0x62, b'r', b'k', t, 0x62, b'z', b'z', 0xF6, 0x62, b'u', b'v', 0xF4,
+    ];
     for m in [&m1[..], &m2[..], &m3[..], &m4[..], &m5[..], &m6[..]] {
         match cbor_deserialize::<AuthenticatorOptions>(m) {
             Ok(p) => assert!(p == o, "GC/C06: unknown member changed the decoded options"),
@@ -88,7 +135,9 @@ pub fn gc_k_param_type_capacity() {
     kani::assume(c >= b'a' && c <= b'z');
     // {"alg": -7, "type": <32 x c>}
     let mut m32 = [0u8; 12 + 2 + 32];
-    let head = [0xA2, 0x63, b'a', b'l', b'g', 0x26, 0x64, b't', b'y', b'p', b'e', 0x78, 32];
+    let head = [
+        0xA2, 0x63, b'a', b'l', b'g', 0x26, 0x64, b't', b'y', b'p', b'e', 0x78, 32,
+    ];
     m32[..13].copy_from_slice(&head);
     let mut i = 0;
     while i < 32 {
@@ -96,7 +145,10 @@ pub fn gc_k_param_type_capacity() {
         i += 1;
     }
     let p: PublicKeyCredentialParameters = cbor_deserialize(&m32[..45]).unwrap();
-    assert!(p.alg == -7 && p.key_type.len() == 32, "GC/C12: 32-byte type accepted whole");
+    assert!(
+        p.alg == -7 && p.key_type.len() == 32,
+        "GC/C12: 32-byte type accepted whole"
+    );
     let mut m33 = [0u8; 12 + 2 + 33];
     m33[..13].copy_from_slice(&head);
     m33[12] = 33;
@@ -105,7 +157,10 @@ pub fn gc_k_param_type_capacity() {
         m33[13 + i] = c;
         i += 1;
     }
-    assert!(cbor_deserialize::<PublicKeyCredentialParameters>(&m33[..46]).is_err(), "GC/C12: 33-byte type must be rejected");
+    assert!(
+        cbor_deserialize::<PublicKeyCredentialParameters>(&m33[..46]).is_err(),
+        "GC/C12: 33-byte type must be rejected"
+    );
 }
 
 /// A1/A2 encode side + C15: encode(decode) and decode(encode) on small bidirectional types.
@@ -120,12 +175,22 @@ pub fn gc_k_roundtrip_small() {
     assert!(out.len() == 5, "GC/C15: re-encoding length");
     let k: usize = kani::any();
     kani::assume(k < 5);
-    assert!(out[k] == msg[k], "GC/C15: re-encoding canonical bytes must reproduce them");
+    assert!(
+        out[k] == msg[k],
+        "GC/C15: re-encoding canonical bytes must reproduce them"
+    );
     let b: bool = kani::any();
-    let opts = AuthenticatorOptions { rk: Some(b), up: None, uv: Some(!b) };
+    let opts = AuthenticatorOptions {
+        rk: Some(b),
+        up: None,
+        uv: Some(!b),
+    };
     let mut buf2 = [0u8; 16];
     let enc = cbor_serialize(&opts, &mut buf2).unwrap();
     let back: AuthenticatorOptions = cbor_deserialize(enc).unwrap();
     assert!(back == opts, "GC/C15: decode(encode(v)) == v");
-    assert!(enc.len() == 9 && enc[0] == 0xA2, "GC/C02: unset member absent, not null");
+    assert!(
+        enc.len() == 9 && enc[0] == 0xA2,
+        "GC/C02: unset member absent, not null"
+    );
 }
